@@ -11,11 +11,13 @@ convention cannot alarm while a wrong coefficient scaling of any element or func
 import numpy as np
 
 META = dict(
-    engines=["product"],
+    engines=["product", "bfs"],
     technique="exhaustive enumeration of all elements of all three parametrization tables x radius / frequency grids; quadrature reference for the integral identities",
     text="For every element in each of the three tables the four function kinds are evaluated on radius and frequency grids; positivity and "
          "monotonicity are checked pointwise, the projected potential against a z-quadrature of the 3-D potential, the projected scattering factor "
-         "against a Hankel quadrature of the projected potential, and the ratio of the two scattering-factor kinds against one global constant.",
+         "against a Hankel quadrature of the projected potential, and the ratio of the two scattering-factor kinds against one global constant. "
+         "A breadth-first search over request histories (which function kinds were asked of the same object before, depth 3 quick / 4 thorough, "
+         "x 5 ways of holding the parameter table) requires every answer to equal a fresh object's and the table to stay unchanged.",
     note="Bound: r in [0.02, 4] A, k in [0, 6] 1/A, neutral atoms. Quadrature: composite Gauss-Legendre, tolerance 3e-4 relative (observed <= 3e-5). "
          "Elements are enumerated from the tables themselves, so an added element is picked up.",
 )
@@ -31,6 +33,14 @@ def check(ctx):
         for sym in p.parameters:
             cases.append({"table": t, "symbol": sym, "nr": 8 if ctx.quick else 24, "nk": 6 if ctx.quick else 16})
     ctx.run(cases, "run_case", rule="one case per (table, element); non-trivial = all", batch=4)
+    # histories: a parametrization object is asked for several function kinds one after another; every answer must be the one a
+    # fresh default object gives, whatever was requested before and however the parameter table is held (lists / ndarrays / json)
+    depth = 3 if ctx.quick else 4
+    syms = ["C", "Au"] if ctx.quick else ["H", "C", "Si", "Au"]
+    hcases = [{"table": t, "symbol": s_, "source": src, "first": k, "depth": depth}
+              for t in TABLES for s_ in syms for src in SOURCES for k in KINDS]
+    ctx.run(hcases, "run_history", space="request-histories", batch=2,
+            rule="BFS over all request sequences (4 function kinds + line_profiles) up to the depth, per (table, symbol, table source, first request)")
 
 
 def gl(a, b, n):
@@ -48,6 +58,110 @@ def panels(edges, n):
 
 
 _RATIO = {}
+SOURCES = ["default", "ndarray-float64", "tuples", "json-roundtrip", "own-copy-of-default"]
+KINDS = ["potential", "projected_potential", "scattering_factor", "projected_scattering_factor", "line_profiles"]
+
+
+def _make(table, source):
+    """A real parametrization object whose parameter table is held the way `source` says (all legal per the class docstring)."""
+    import copy
+    import os
+    import tempfile
+
+    from abtem.parametrizations import validate_parametrization
+
+    base = validate_parametrization(table)
+    cls = type(base)
+    if source == "default":
+        return base
+    if source == "own-copy-of-default":
+        return cls(parameters=copy.deepcopy(base.parameters))
+    if source == "ndarray-float64":
+        return cls(parameters={k: np.array(v, dtype=np.float64) for k, v in base.parameters.items()})
+    if source == "tuples":
+        return cls(parameters={k: tuple(tuple(r) for r in np.array(v).tolist()) for k, v in base.parameters.items()})
+    if source == "json-roundtrip":
+        src = cls(parameters={k: np.array(v, dtype=np.float64) for k, v in base.parameters.items()})
+        d = tempfile.mkdtemp(dir="/dev/shm" if os.path.isdir("/dev/shm") else None)
+        try:
+            f = os.path.join(d, "p.json")
+            src.to_json(f)
+            out = cls()
+            out.from_json(f)
+        finally:
+            import shutil
+
+            shutil.rmtree(d, ignore_errors=True)
+        return out
+    raise ValueError(source)
+
+
+def _observe(p, kind, sym):
+    r = np.geomspace(0.02, 4.0, 12)
+    k = np.linspace(0.0, 6.0, 9)
+    if kind == "line_profiles":
+        prof = p.line_profiles(sym, cutoff=3.0, sampling=0.25, name="potential")
+        return np.asarray(prof.array, float).ravel()
+    f = getattr(p, kind)(sym)
+    return np.asarray(f(r if kind in ("potential", "projected_potential") else k ** 2), float)
+
+
+def run_history(c):
+    """Explicit-state BFS: a state is the request history on ONE live parametrization object (rebuilt from scratch per history)."""
+    from mc.bfs import bfs
+    from abtem.parametrizations import validate_parametrization
+
+    sym = c["symbol"]
+    fresh_ref = {}
+    for kind in KINDS:
+        try:
+            fresh_ref[kind] = _observe(validate_parametrization(c["table"]), kind, sym)
+        except Exception as e:  # noqa: BLE001  (a kind the parametrization does not offer: outcome class must agree)
+            fresh_ref[kind] = "raises:" + type(e).__name__
+    snap0 = np.array(validate_parametrization(c["table"]).parameters[sym], dtype=float)
+    worst = [0.0]
+
+    def fresh():
+        return {"p": _make(c["table"], c["source"]), "hist": []}
+
+    def apply(s, ev):
+        try:
+            s["last"] = _observe(s["p"], ev, sym)
+        except Exception as e:  # noqa: BLE001
+            s["last"] = "raises:" + type(e).__name__
+        s["hist"].append(ev)
+        return "ok" if not isinstance(s["last"], str) else s["last"]
+
+    def enabled(s):
+        return KINDS if s["hist"] else [c["first"]]
+
+    def canon(s):  # hidden state is the object of study: never merge two histories
+        return tuple(s["hist"])
+
+    def check(s, hist, ev, info, pre):
+        out = []
+        ref, got = fresh_ref[ev], s["last"]
+        if isinstance(ref, str) or isinstance(got, str):
+            if str(ref) != str(got) if isinstance(ref, str) or isinstance(got, str) else False:
+                out.append(("history/outcome-class/" + ev, "request %s after %s: %s, a fresh object: %s (%s)" % (ev, list(hist), got if isinstance(got, str) else "ok", ref if isinstance(ref, str) else "ok", c)))
+        else:
+            e = float(np.max(np.abs(got - ref)) / np.max(np.abs(ref)))
+            worst[0] = max(worst[0], e / 1e-9)
+            if not e <= 1e-9:
+                out.append(("history/" + ev + "/differs-from-fresh", "%s(%s) requested after %s from a %s table differs from a fresh object's by %.3g relative (%s)" % (ev, sym, list(hist), c["source"], e, c)))
+        now = np.array(s["p"].parameters[sym], dtype=float)
+        if now.shape != snap0.shape or not np.array_equal(now, snap0):
+            out.append(("history/parameter-table-modified", "the parameter table entry of %s changed after requests %s (max change %.3g) (%s)" % (sym, list(hist) + [ev], float(np.max(np.abs(now - snap0))) if now.shape == snap0.shape else -1, c)))
+        return out
+
+    res = bfs(fresh, apply, enabled, canon, check, c["depth"])
+    viol, seen = [], set()
+    for key, msg, hist in res["violations"]:
+        if key not in seen:
+            seen.add(key)
+            viol.append({"key": key, "msg": msg})
+    return {"viol": viol, "obs": "%d histories %s" % (len(res["states"]), sorted(res["infos"].items())), "st": len(res["states"]),
+            "tr": res["transitions"], "ref": res["transitions"], "err": worst[0]}
 
 
 def run_case(c):
